@@ -1,7 +1,7 @@
 (** Property C15 — a nonce is never used for two different messages.
     Property theorems only. *)
-From RsM Require Import Lib.MachInt Model.Mrp Model.Nonce
-  Proofs.NonceTheorems Proofs.NonceAlloc.
+From RsM Require Import Model.Packet Lib.MachInt Model.Mrp Model.Nonce
+  Proofs.NonceTheorems Proofs.NonceAlloc Proofs.NonceAead.
 From Coq Require Import Sorted.
 Open Scope N_scope.
 
@@ -20,6 +20,61 @@ Theorem C15_nonce_unique : forall (c0 : N) (nex : nat) (ops : list sop),
 Proof. exact nonce_unique. Qed.
 Print Assumptions C15_nonce_unique.
 
+(** The same from a session of either kind whose counter stands ANYWHERE (a
+    long-lived session near the end of the 32-bit range included). *)
+Theorem C15_nonce_unique_anywhere : forall (ctr : N) (nex : nat) (case : bool) (ops : list sop),
+  honest (sess_at ctr nex case) ops = true ->
+  forall w1 w2, In w1 (snd (fst (sess_run (sess_at ctr nex case) ops))) ->
+                In w2 (snd (fst (sess_run (sess_at ctr nex case) ops))) ->
+                w_ctr w1 = w_ctr w2 -> w1 = w2.
+Proof. intros ctr nex case ops. exact (nonce_unique_from _ ops (winv_fresh ctr nex false case)). Qed.
+Print Assumptions C15_nonce_unique_anywhere.
+
+(** Every counter that goes on the wire fits the 32-bit header field, so equal
+    header fields mean equal counters: the counter never comes round. *)
+Theorem C15_wire_counters_fit : forall (ctr : N) (nex : nat) (case : bool) (ops : list sop),
+  ctr < two32 -> honest (sess_at ctr nex case) ops = true ->
+  forall w, In w (snd (fst (sess_run (sess_at ctr nex case) ops))) -> w_ctr w < two32.
+Proof.
+  intros ctr nex case ops Hb Hh.
+  exact (wire_ctrs_fit _ ops (winv_fresh ctr nex false case) Hh Hb).
+Qed.
+Print Assumptions C15_wire_counters_fit.
+
+(** "Consequently no two different plaintexts are ever encrypted under the same
+    key, counter and source identity": with C03's nonce ([get_iv]: security
+    flags, 32-bit counter, source node id), equal AEAD nonces within a session
+    mean the same wire message, and whatever deterministic framing turns a wire
+    message into associated data and plaintext, equal (key, nonce) mean the
+    identical sealed term. *)
+Theorem C15_aead_nonce_unique :
+  forall (sf node ctr : N) (nex : nat) (case : bool) (ops : list sop),
+  sf < 256 -> node < two64 -> ctr < two32 ->
+  honest (sess_at ctr nex case) ops = true ->
+  forall w1 w2, In w1 (snd (fst (sess_run (sess_at ctr nex case) ops))) ->
+                In w2 (snd (fst (sess_run (sess_at ctr nex case) ops))) ->
+                nonce sf (w_ctr w1) node = nonce sf (w_ctr w2) node -> w1 = w2.
+Proof.
+  intros sf node ctr nex case ops Hsf Hnode Hb Hh.
+  exact (aead_nonce_unique sf node _ ops Hsf Hnode (winv_fresh ctr nex false case) Hh Hb).
+Qed.
+Print Assumptions C15_aead_nonce_unique.
+
+Theorem C15_one_nonce_one_plaintext :
+  forall (key sf node ctr : N) (frame : wire -> list N * list N)
+         (nex : nat) (case : bool) (ops : list sop),
+  sf < 256 -> node < two64 -> ctr < two32 ->
+  honest (sess_at ctr nex case) ops = true ->
+  forall w1 w2, In w1 (snd (fst (sess_run (sess_at ctr nex case) ops))) ->
+                In w2 (snd (fst (sess_run (sess_at ctr nex case) ops))) ->
+                same_key_nonce (sealed_for key sf node frame w1) (sealed_for key sf node frame w2) ->
+                sealed_for key sf node frame w1 = sealed_for key sf node frame w2.
+Proof.
+  intros key sf node ctr frame nex case ops Hsf Hnode Hb Hh.
+  exact (one_nonce_one_plaintext key sf node frame _ ops Hsf Hnode (winv_fresh ctr nex false case) Hh Hb).
+Qed.
+Print Assumptions C15_one_nonce_one_plaintext.
+
 (** Messages that are not retransmissions carry strictly increasing counters
     (any trace, honest or not). *)
 Theorem C15_fresh_counters_increase : forall (ops : list sop) (s : sess),
@@ -28,13 +83,15 @@ Theorem C15_fresh_counters_increase : forall (ops : list sop) (s : sess),
 Proof. exact fresh_counters_increase. Qed.
 Print Assumptions C15_fresh_counters_increase.
 
-(** The code has no exhaustion guard: at the end of the 32-bit range a fresh
-    send aborts (overflow-checked profile) rather than reusing a counter. *)
-Theorem C15_counter_exhaustion_panics : forall s e x m rel,
+(** At the end of the 32-bit range a fresh send is refused: the session is
+    marked expired (it gets replaced, with new keys) and neither the counter nor
+    any exchange changes - in every build profile (before the repair the counter
+    wrapped to 0 in the release profile and the node aborted in the debug one). *)
+Theorem C15_counter_exhaustion_refused : forall s e x m rel,
   nth_error (s_ex s) e = Some x -> pending_ctr x = None -> two32 <= s_ctr s + 1 ->
-  snd (sess_send s e m rel) = Panic PANIC_CTR_OVERFLOW.
-Proof. exact counter_exhaustion_panics. Qed.
-Print Assumptions C15_counter_exhaustion_panics.
+  sess_send s e m rel = (mkSess (s_ctr s) (s_ex s) true (s_case s), Err ERR_CTR_EXHAUSTED).
+Proof. exact counter_exhaustion_refused. Qed.
+Print Assumptions C15_counter_exhaustion_refused.
 
 (** Locally chosen session identifiers: non-zero, not in use; the search
     succeeds whenever fewer than 65535 identifiers are in use. *)
@@ -88,3 +145,13 @@ Example C15_ex_alloc_wrap :
   next_sess_id 4 65535 [65535; 1; 2] = Some (3, 4) /\
   next_exch_id 3 65535 [(65535, true); (1, false); (2, true)] = Some (1, 2).
 Proof. vm_compute. split; reflexivity. Qed.
+
+(** the end of the range: the last counter used is 2^32-2, then the session refuses *)
+Example C15_ex_exhaustion :
+  let s0 := sess_at 4294967294 1 true in
+  let ops := [Send 0 1 false; Send 0 2 false; Send 0 3 true] in
+  honest s0 ops = true /\
+  map w_ctr (snd (fst (sess_run s0 ops))) = [4294967294] /\
+  s_ctr (fst (fst (sess_run s0 ops))) = 4294967295 /\
+  s_expired (fst (fst (sess_run s0 ops))) = true.
+Proof. vm_compute. repeat split; reflexivity. Qed.
